@@ -13,6 +13,14 @@ Streams
   e2e  : a few projects with the references embedded in doc comments, the project file, the
          summary and static pages run through `ford.main`; every produced <a> is resolved on disk.
   path : `os.path.relpath` vs the model's `relpath` on random segment lists.
+
+Round 2: projects with `project_url` set (URL / absolute path), so that the coordinate system of the URLs
+(`md.base_url`) differs from where the pages are written (`output_dir`); the oracle resolves hrefs below
+`output_dir`.  The `path=` given to texts without entity context (project file, summary, static pages) is not
+assumed but read from the call sites by the translator (`context_free_paths`).  Pages of one directory may
+share a name (`name~2.html`): the page file name of an abstract entity is the identifier FORD gave to the
+object at that position.  For every (context kind, parent kind) a context with a shadowed name next to it
+is added and asked for exactly those names (`shadowed_near`).
 """
 from __future__ import annotations
 
@@ -53,6 +61,14 @@ def load_project(ford, root: Path, files, options, pages=None, text="Project tex
         md = MetaMarkdown(proj_data.md_base_dir, base_url=proj_data.project_url,
                           extensions=proj_data.md_extensions, aliases=aliases, project=project)
     return project, md, proj_data
+
+
+def set_page_names(P, real):
+    """record the identifier (page file name) FORD gave to the entity at each abstract position"""
+    for e in P["ents"]:
+        o = real.get(e["id"])
+        if o is not None and e["page_dir"] is not None and e["kind"] != "file":
+            e["page_name"] = str(o.ident)
 
 
 def locate(project, P):
@@ -219,16 +235,18 @@ def norm_join(base: str, rel: str) -> str:
     return os.path.normpath(os.path.join(base, rel))
 
 
-def display_dirs(base: str, ctx_abs, path, summary):
-    """directories of the pages on which the converted text is displayed"""
+def display_dirs(out: str, ctx_abs, loc):
+    """directories (below the site root `out`, where the pages are written) of the pages on which the
+    converted text is displayed; `loc` is the location of a text without context: "" for the front page
+    (project file, summary), "page/..." for a static page"""
     if ctx_abs is None:
-        return [base if summary else str(path)]
+        return [os.path.normpath(os.path.join(out, loc))]
     h = G.page_holder(ctx_abs)
     own = "sourcefile" if h["kind"] == "file" else h["page_dir"]
-    dirs = [os.path.join(base, own), os.path.join(base, "lists")]
+    dirs = [os.path.join(out, own), os.path.join(out, "lists")]
     if ctx_abs["scope"] is not None:
         hp = G.page_holder(ctx_abs["scope"])
-        dirs.append(os.path.join(base, "sourcefile" if hp["kind"] == "file" else hp["page_dir"]))
+        dirs.append(os.path.join(out, "sourcefile" if hp["kind"] == "file" else hp["page_dir"]))
     return list(dict.fromkeys(dirs))
 
 
@@ -240,7 +258,7 @@ def in_local_type(e):
     return False
 
 
-def check_oracle(P, base, ctx_abs, path, summary, ref, im):
+def check_oracle(P, out, ctx_abs, loc, ref, im):
     """None when the real output is what the documented rules give, else a reason."""
     s = G.spec(P, ctx_abs, ref)
     if s[0] == "unspecified":
@@ -278,10 +296,10 @@ def check_oracle(P, base, ctx_abs, path, summary, ref, im):
             continue
         hpath, _, hfrag = href.partition("#")
         bad = None
-        for d in display_dirs(base, ctx_abs, path, summary):
+        for d in display_dirs(out, ctx_abs, loc):
             got = norm_join(d, hpath)
-            if got != os.path.join(base, p):
-                bad = f"href {href!r} resolved from {os.path.relpath(d, base)!r} gives {os.path.relpath(got, base)!r}, expected {p!r}"
+            if got != os.path.join(out, p):
+                bad = f"href {href!r} resolved from {os.path.relpath(d, out)!r} gives {os.path.relpath(got, out)!r}, expected {p!r}"
                 break
         if bad is None:
             if frag is None and hfrag:
@@ -314,8 +332,9 @@ for _k in ("variable", "bound", "final"):
     CAN_CONTAIN[_k] = set()
 
 
-def classify(P, ctx_abs, path, summary, ref):
-    """Known defect classes, decided from the input alone (never from the failure)."""
+def classify(P, ctx_abs, what, url_set, ref):
+    """Known defect classes, decided from the input alone (never from the failure).
+    `what`: "entity" | "projfile" | "summary" | "page"; `url_set`: the option `project_url` is given."""
     name, kind, child, ckind = ref
     if (kind or "").lower() == "constructor" or (ckind or "").lower() == "constructor":
         return "C11-constructor-qualifier-raises"
@@ -333,9 +352,73 @@ def classify(P, ctx_abs, path, summary, ref):
         comps = [e for e in P["ents"] if e["visible"] and e["name"].lower() == name.lower()]
         if any(ckind.lower() not in CAN_CONTAIN.get(e["kind"], set()) for e in comps):
             return "C11-impossible-item-kind-raises"
-    if s[0] == "link" and ((ctx_abs is not None and in_local_type(ctx_abs)) or (ctx_abs is None and path is None)):
+    if child is not None and (ckind is None or ckind.lower() == "modproc"):
+        for e in P["ents"]:
+            if e["kind"] == "interface" and e["visible"] and e["name"].lower() == name.lower() \
+                    and any(p["visible"] and p["name"].lower() == child.lower() for p in e["modprocs"]):
+                return "C11-module-procedure-of-generic-interface-not-an-item"
+    if s[0] == "link" and ((ctx_abs is not None and in_local_type(ctx_abs)) or (ctx_abs is None and what == "summary")):
         return "C11-context-without-url"
+    if s[0] == "link" and ctx_abs is None and what == "page" and url_set:
+        return "C11-static-page-with-project-url"
+    if s[0] == "link" and s[1] and all(local_of_internal_proc(t) for t in s[1]):
+        return "C11-local-variable-of-internal-procedure-has-no-anchor"
     return None
+
+
+def local_of_internal_proc(t):
+    """a local (non-argument) variable of a procedure that is internal to another procedure"""
+    sc = t["scope"]
+    return (t["kind"] == "variable" and t.get("role") == "local" and sc is not None and sc["kind"] == "proc"
+            and sc["scope"] is not None and sc["scope"]["kind"] == "proc")
+
+
+def site_setting(expr, settings):
+    """value of one of the settings expressions the translator found at a conversion site"""
+    if expr == "none":
+        return None
+    if expr == "proj_data.project_url":
+        return settings.project_url
+    if expr == "proj_data.output_dir":
+        return settings.output_dir
+    raise common.Infra(f"conversion site uses an expression the harness cannot evaluate: {expr!r}")
+
+
+def context_free_paths(tables, settings, md):
+    """The `path=` the real call sites (ford.main, PageNode.__init__; read by the translator) give to the
+    conversion of texts without entity context: {"projfile": p, "summary": p, "page": function of location}."""
+    import pathlib
+
+    if tables["pagePathRoot"] == "output_dir":
+        root = site_setting(tables["pageTreeRoot"], settings)
+    elif tables["pagePathRoot"] in ("self.base_url", "md.base_url"):
+        root = md.base_url
+    else:
+        raise common.Infra(f"PageNode converts at an unknown root {tables['pagePathRoot']!r}")
+    return {
+        "projfile": site_setting(tables["projDocsPath"], settings),
+        "summary": site_setting(tables["summaryPath"], settings),
+        "page": lambda loc: (pathlib.Path(root) / loc).resolve(),
+    }
+
+
+def shadowed_near(P, ctx_abs):
+    """entities in the documented entity's own contents or in its parent's contents (the entity itself
+    included) whose name is also carried by another displayed entity of the project: the references for
+    which the documented order (own contents, parent's contents, whole project) decides the target"""
+    near = list(G.contents(ctx_abs))
+    if ctx_abs["scope"] is not None:
+        near += G.contents(ctx_abs["scope"])
+    out = []
+    for t in near:
+        ln = t["name"].lower()
+        if any(e is not t and e["visible"] and e["name"].lower() == ln for e in P["ents"]) and t not in out:
+            out.append(t)
+    return out
+
+
+E2E_URLS = [None, "https://example.com/docs", None, "/srv/www/fordsite"]
+URLS = [None, None, "https://example.com/docs", None, "/srv/www/fordsite"]
 
 
 # ----------------------------------------------------------------------------- streams
@@ -350,15 +433,24 @@ def conv_stream(ford, drv, rng, n_projects, rep, tables, stats, replay_case=None
         P = G.gen_project(prng, size=1 if k % 4 == 0 else 2)
         files = G.render_project(P)
         options = {"proc_internals": "true" if P["proc_internals"] else "false", "display": P["display"]}
+        url = URLS[k % len(URLS)]
+        if url is not None:
+            options["project_url"] = url
+        stats["project_url"][str(url)] = stats["project_url"].get(str(url), 0) + 1
         with common.scratch_dir() as d:
             try:
                 project, md, settings = load_project(ford, d, files, options)
+                free = context_free_paths(tables, settings, md)
+            except common.Infra:
+                raise
             except BaseException as e:  # noqa
                 rep.tie_broken(f"conv: FORD could not load generated project {k}: {type(e).__name__}: {e}",
                                {"stream": "conv", "files": files, "options": options})
                 continue
-            base = str(md.base_url)
+            base = str(md.base_url)          # the coordinate system of the URLs (`project_url`)
+            out = str(settings.output_dir)   # where the pages are written
             real = locate(project, P)
+            set_page_names(P, real)
             # which entities are displayed is property C04/C05's business: take it from FORD's pruned tree
             for e in P["ents"]:
                 seen_by_ford = real.get(e["id"]) is not None
@@ -384,6 +476,17 @@ def conv_stream(ford, drv, rng, n_projects, rep, tables, stats, replay_case=None
                     seen.add(key)
                     chosen.append(c)
             chosen += ctxs[:6]
+            # contexts near which a name is shadowed: every (context kind, parent kind) once
+            shadow = {}
+            for c in ctxs:
+                sh = shadowed_near(P, c[1])
+                if sh:
+                    shadow[c[1]["id"]] = sh
+                    key = ("shadow", c[1]["kind"], c[1]["scope"]["kind"] if c[1]["scope"] is not None else None)
+                    if key not in seen and len([x for x in seen if x[0] == "shadow"]) < 8:
+                        seen.add(key)
+                        if c not in chosen:
+                            chosen.append(c)
             chosen += [("projfile", None), ("summary", None), ("page", "page"), ("page", "page/sub/deeper")]
             # ---- references
             targets = list(P["ents"])
@@ -405,30 +508,37 @@ def conv_stream(ford, drv, rng, n_projects, rep, tables, stats, replay_case=None
             for t in targets[:3]:
                 if t["scope"] is not None and t["scope"]["kind"] != "file":
                     refs.append(((t["scope"]["name"], None, t["name"], prng.choice(sorted(G.ITEM_Q))), "any-item-kind"))
-            queries = []
+            queries = []     # (what, context, path given to convert, location of the page below the site root, ref, class)
             for what, c in chosen:
                 rs = refs if what != "entity" else prng.sample(refs, min(len(refs), 14))
+                if what == "entity" and c["id"] in shadow:
+                    # references to the shadowed names next to this context, in the documented component spellings
+                    extra = []
+                    for t in shadow[c["id"]]:
+                        extra += [(r, "shadowed") for r in G.spellings(prng, t) if r[2] is None]
+                    prng.shuffle(extra)
+                    rs = rs + extra[:8]
                 for (r, tclass) in rs:
                     if what == "entity":
-                        queries.append((what, c, None, r, tclass))
+                        queries.append((what, c, None, None, r, tclass))
                     elif what == "projfile":
-                        queries.append((what, None, base, r, tclass))
+                        queries.append((what, None, free["projfile"], "", r, tclass))
                     elif what == "summary":
-                        queries.append((what, None, None, r, tclass))
+                        queries.append((what, None, free["summary"], "", r, tclass))
                     else:
-                        queries.append((what, None, os.path.join(base, c), r, tclass))
+                        queries.append((what, None, free["page"](c), c, r, tclass))
             reqs = ["c11.conv", base, cwd] + fields
-            for what, c, path, r, _ in queries:
+            for what, c, path, _, r, _ in queries:
                 reqs.append("|".join(["Q", str(store.idof(real[c["id"]])) if c is not None else "",
-                                      path if path is not None else "-", r[0], r[1] or "", r[2] or "", r[3] or ""]))
+                                      str(path) if path is not None else "-", r[0], r[1] or "", r[2] or "", r[3] or ""]))
             mo = drv.batch([reqs])[0]
             if mo[0] != "ok" or len(mo) != len(queries) + 1:
                 rep.tie_broken(f"conv: driver answered {mo[:2]} for project {k}")
                 continue
-            for (what, c, path, r, tclass), ans in zip(queries, mo[1:]):
+            for (what, c, path, loc, r, tclass), ans in zip(queries, mo[1:]):
                 text = G.render_ref(r)
                 im = impl_convert(md, text, real[c["id"]] if c is not None else None,
-                                  Path(path) if path is not None else None, reset=(what != "summary"))
+                                  path, reset=(what != "summary"))
                 n_eval += 1
                 a = ans.split("|")
                 model = tuple(a[:3]) if a[0] == "L" else tuple(a[:2])
@@ -442,17 +552,19 @@ def conv_stream(ford, drv, rng, n_projects, rep, tables, stats, replay_case=None
                     if q:
                         stats["kinds"][q.lower()] = stats["kinds"].get(q.lower(), 0) + 1
                 case = {"stream": "conv", "project": k, "files": files, "options": options, "context": ckind,
-                        "context_name": c["name"] if c is not None else None, "path": path,
+                        "context_name": c["name"] if c is not None else None,
+                        "context_file": G.file_of(c)["name"] if c is not None else None,
+                        "path": str(path) if path is not None else None, "displayed_below_site_root": loc,
                         "reference": text, "impl": list(im), "model": list(model)}
                 if tuple(im) != model:
                     stats["disagree"] += 1
                     rep.tie_broken(f"correspondence conv: model {model} vs implementation {im} for {text} in context {ckind}", case)
                 else:
                     stats["distinct"].add(common.digest([ckind, form, tclass, im[0], r[1], r[3]]))
-                verdict, why = check_oracle(P, base, c, path, what == "summary", r, im)
+                verdict, why = check_oracle(P, out, c, loc, r, im)
                 stats["oracle"][verdict] = stats["oracle"].get(verdict, 0) + 1
                 if verdict == "fail":
-                    cls = classify(P, c, path, what == "summary", r)
+                    cls = classify(P, c, what, url is not None, r)
                     rep.failing_input(dict(case, why=why, target_class=tclass), cls)
                     stats["fail_class"][str(cls)] = stats["fail_class"].get(str(cls), 0) + 1
                 if len(stats["samples"]) < 4 and im[0] == "L" and r[2]:
@@ -526,6 +638,14 @@ def e2e_stream(ford, rng, n_projects, rep, stats):
                  "sub/leaf.md": "---\ntitle: Leaf\n---\n\n" + put(None, "page:page/sub") + "\n\nverbatim `[[nosuch]]` span\n"}
         files = G.render_project(P)
         options = {"proc_internals": "true" if P["proc_internals"] else "false", "display": P["display"]}
+        url = E2E_URLS[k % len(E2E_URLS)]
+        if url is not None:
+            options["project_url"] = url
+        stats["e2e_project_url"][str(url)] = stats["e2e_project_url"].get(str(url), 0) + 1
+
+        def what_of(where):
+            return "page" if where.startswith("page") else where
+
         with common.scratch_dir() as d:
             pf = e2e.write_project(d, files, options, text=text, pages=pages)
             import ford.fortran_project as fp
@@ -547,11 +667,12 @@ def e2e_stream(ford, rng, n_projects, rep, stats):
                 real = locate(cap["project"], P)
                 for e in P["ents"]:
                     e["visible"] = real.get(e["id"]) is not None
+                set_page_names(P, real)
             if res["rc"] != 0:
                 # a crash of the whole run: classify through the references that were embedded
                 cls = None
                 for tag, (c, where, r) in marks.items():
-                    cls = cls or classify(P, c, None, False, r)
+                    cls = cls or classify(P, c, what_of(where), url is not None, r)
                 rep.failing_input({"stream": "e2e", "files": files, "options": options, "why": f"ford.main failed: {res['exc']}",
                                    "references": [G.render_ref(m[2]) for m in marks.values()]}, cls)
                 continue
@@ -577,7 +698,7 @@ def e2e_stream(ford, rng, n_projects, rep, stats):
                     if a is None or not a.get("href"):
                         if not s[2]:
                             rep.failing_input(dict(case, why="expected a link on the written page, found plain text"),
-                                              classify(P, c, None, False, r))
+                                              classify(P, c, what_of(where), url is not None, r))
                         continue
                     href = a["href"]
                     hpath, _, hfrag = href.partition("#")
@@ -592,8 +713,19 @@ def e2e_stream(ford, rng, n_projects, rep, stats):
                                 ok = f'id="{hfrag}"' in tgt.read_text(errors="replace")
                     if not ok:
                         rep.failing_input(dict(case, why=f"href {href!r} on {rel} resolves to {tgt} which is not the page/anchor of the selected entity"),
-                                          classify(P, c, None if where != "projfile" else base, False, r))
-            if "<code>[[nosuch]]</code>" not in (Path(out) / "page" / "sub" / "leaf.html").read_text():
+                                          classify(P, c, what_of(where), url is not None, r))
+            leaf = Path(out) / "page" / "sub" / "leaf.html"
+            if not leaf.exists():
+                # get_page_tree swallows an exception of the conversion ("Error parsing ...") and drops the pages
+                cls = None
+                for tag, (c, where, r) in marks.items():
+                    if where.startswith("page"):
+                        cls = cls or classify(P, c, what_of(where), url is not None, r)
+                warn = [ln for ln in res["log"].splitlines() if "Error parsing" in ln]
+                rep.failing_input({"stream": "e2e", "files": files, "options": options, "pages": pages,
+                                   "why": f"the static pages were not written ({' '.join(warn)[:200]})",
+                                   "references": [G.render_ref(m[2]) for m in marks.values() if m[1].startswith("page")]}, cls)
+            elif "<code>[[nosuch]]</code>" not in leaf.read_text():
                 rep.failing_input({"stream": "e2e", "why": "code span on a static page not verbatim"}, None)
     return n_eval
 
@@ -622,8 +754,8 @@ def run(tier: str, seed: int, replay: str | None = None) -> int:
     drv = Driver()
     n_proj = 40 if tier == "quick" else 400
     n_e2e = 6 if tier == "quick" else 40
-    stats = {"ctx": {}, "target": {}, "form": {}, "outcome": {}, "kinds": {}, "oracle": {}, "fail_class": {},
-             "code": {}, "e2e_pages": {}, "samples": [], "distinct": set(), "disagree": 0}
+    stats = {"project_url": {}, "ctx": {}, "target": {}, "form": {}, "outcome": {}, "kinds": {}, "oracle": {}, "fail_class": {},
+             "code": {}, "e2e_pages": {}, "e2e_project_url": {}, "samples": [], "distinct": set(), "disagree": 0}
     n_path, bad_path = path_stream(drv, rng, 2000 if tier == "quick" else 20000, rep)
     n_conv = conv_stream(ford, drv, rng, n_proj, rep, tables, stats)
     n_e = e2e_stream(ford, rng, n_e2e, rep, stats)
@@ -635,6 +767,7 @@ def run(tier: str, seed: int, replay: str | None = None) -> int:
         samples=stats["samples"],
         traces_validated_against_impl=n_conv + n_path,
         correspondence_disagreements=stats["disagree"] + bad_path,
+        project_url_histogram=stats["project_url"],
         context_histogram=dict(sorted(stats["ctx"].items())),
         target_histogram=dict(sorted(stats["target"].items())),
         reference_form_histogram=dict(sorted(stats["form"].items())),
@@ -645,6 +778,7 @@ def run(tier: str, seed: int, replay: str | None = None) -> int:
         code_span_cases=stats["code"],
         e2e_links_checked=n_e,
         e2e_pages=stats["e2e_pages"],
+        e2e_project_url_histogram=stats["e2e_project_url"],
         unlocated_entities=stats.get("unlocated", 0),
         visibility_model_mismatch=stats.get("visibility_model_mismatch", 0),
     )
